@@ -7,7 +7,7 @@ From Coq Require Import List ZArith Lia.
 Require Import Avro.Model.Base Avro.Model.Prim Avro.Model.Schema Avro.Model.GoType Avro.Model.Time
                Avro.Model.Spec Avro.Model.Codec Avro.Model.Container.
 Require Import Avro.Model.Typing.
-Require Import Avro.Proofs.SafeP Avro.Proofs.BuildP Avro.Proofs.TimeP Avro.Proofs.LayoutP Avro.Proofs.TypedP Avro.Proofs.CtypeP.
+Require Import Avro.Proofs.SafeP Avro.Proofs.BuildP Avro.Proofs.TimeP Avro.Proofs.LayoutP Avro.Proofs.TypedP Avro.Proofs.CtypeP Avro.Proofs.ReadSafeP.
 Import ListNotations.
 Open Scope Z_scope.
 
@@ -24,6 +24,28 @@ Theorem C06_read_never_panics : forall reg, reg_sane reg ->
   c_read fuel c (zero_of t) bs <> Panic /\ (forall v r, c_read fuel c (zero_of t) bs = Done v r -> wt t v).
 Proof. intros reg Hr s t om c fuel bs Hb. eapply built_codec_safe; eauto. apply zero_wt. Qed.
 Print Assumptions C06_read_never_panics.
+
+(* the decode path does not hang either: fuel linear in the input length suffices,
+   so no loop is driven by a declared count alone (zero-width items excepted) *)
+Theorem C06_read_terminates_linear : forall fuel c dest bs,
+  nzw c -> (2 * length bs + 2 <= fuel)%nat -> c_read fuel c dest bs <> Fuel.
+Proof. exact read_terminates. Qed.
+Print Assumptions C06_read_terminates_linear.
+
+(* together: a built codec on ANY bytes returns a typed value (having consumed at
+   least min_bytes) or an error *)
+Theorem C06_read_outcome : forall reg, reg_sane reg ->
+  forall s t om c fuel bs, build reg s (Some t) om = Some c -> nzw c -> (2 * length bs + 2 <= fuel)%nat ->
+  (exists v r, c_read fuel c (zero_of t) bs = Done v r /\ wt t v /\ len r + min_bytes c <= len bs) \/
+  c_read fuel c (zero_of t) bs = Err.
+Proof.
+  intros reg Hr s t om c fuel bs Hb Hz Hf.
+  destruct (built_codec_safe reg Hr s t om c fuel (zero_of t) bs Hb (zero_wt t)) as [Hnp Hty].
+  pose proof (read_terminates fuel c (zero_of t) bs Hz Hf) as Hnf.
+  destruct (c_read fuel c (zero_of t) bs) as [v r| | |] eqn:E; try contradiction; [left|right; reflexivity].
+  exists v, r. split; [reflexivity|]. split; [eapply Hty; eauto|eapply read_progress; eauto].
+Qed.
+Print Assumptions C06_read_outcome.
 
 (* "does not hang": with fuel linear in the input length the skip loops never run
    out of fuel, for every codec whose collection items occupy at least one byte *)
